@@ -35,22 +35,24 @@ BigAttr(sc) == IF sc <= 4 THEN AttrScheme(sc)
                ELSE [i \in Nodes |-> [j \in 1..12 |-> <<"k" \o ToString(13 - j), "v" \o ToString((i + j) % 5)>>]]
 BigKey == [i \in Nodes |-> (i * 7) % 311]
 BigLevel(s, salt) == LET h == Height(Ch, s) IN
-                     CASE Pick(1..3, <<salt, 0>>) = 1 -> NoMax
+                     \* (the first two queries of an instance are anchored: start at the root, level limits 257 and 258 on deep instances)
+                     CASE salt[1] <= 2 /\ h > 257 -> 256 + salt[1]
+                       [] Pick(1..3, <<salt, 0>>) = 1 -> NoMax
                        [] h > 257 /\ Pick(1..4, <<salt, 1>>) > 1 -> Pick({256, 257, 258, 259, h - 1}, salt)
                        [] OTHER -> Pick({0, 1, 2, 3, 5, 9, 10, 11, 256, 257} \cup {h - 1, h, h + 1}, salt)
 Roots == {n \in Nodes : p[n] = 0}
-PickStart(salt) == IF Pick(1..3, <<salt, 0>>) <= 2 THEN Pick(Roots, salt) ELSE Pick(Nodes, salt)
+PickStart(salt) == IF salt[1] <= 2 THEN 1 ELSE IF Pick(1..3, <<salt, 0>>) <= 2 THEN Pick(Roots, salt) ELSE Pick(Nodes, salt)
 SmallSub(S, m, salt) == IF S = {} THEN {} ELSE
    {t[1] : t \in RandomSubset(Pick(0..(IF Cardinality(S) < m THEN Cardinality(S) ELSE m), salt), {<<x, salt>> : x \in S})}
 
 BigDict(i) == \E s \in {PickStart(<<i, 1>>)}, sc \in {Pick(1..5, <<i, 2>>)}: \E ai \in {Pick({"none", "sorted", "public"}, <<i, 3>>)}:
-   \E kd \in {Pick({"list", "reversed", "filter"}, <<i, 4>>)}: \E hide \in {IF kd = "filter" THEN SmallSub(Sub(s) \ {s}, 2, <<i, 5>>) ELSE {}}:
+   \E kd \in {Pick({"list", "reversed", "filter"}, <<i, 4>>)}: \E hide \in {IF kd = "filter" /\ i > 2 THEN SmallSub(Sub(s) \ {s}, 2, <<i, 5>>) ELSE {}}:
    \E ml \in {BigLevel(s, <<i, 6>>)}, jml \in {Pick({NoMax, NoMax, 0, 2, 257}, <<i, 7>>)}:
    \E o \in {[attriter |-> ai, ci |-> [kind |-> IF hide = {} /\ kd = "filter" THEN "list" ELSE kd, hide |-> hide, key |-> BigKey], ml |-> ml]}:
    \E attrs \in {BigAttr(sc)}: \E d \in {Export(Ch, attrs, s, o)}:
      zlast' = [q |-> "dict", s |-> s, attrs |-> attrs, o |-> o, d |-> d, imp |-> Import(d),
                jml |-> jml, jd |-> JsonExport(Ch, attrs, s, o, jml), jdd |-> JsonExport(Ch, attrs, s, DefaultOpts, jml)]
-BigGraph(i) == \E s \in {PickStart(<<i, 1>>)}: \E st \in {SmallSub(Sub(s), 3, <<i, 2>>)}, hide \in {SmallSub(Sub(s), 3, <<i, 3>>)}, ml \in {BigLevel(s, <<i, 4>>)}:
+BigGraph(i) == \E s \in {PickStart(<<i, 1>>)}: \E st \in {IF i <= 2 THEN {} ELSE SmallSub(Sub(s), 3, <<i, 2>>)}, hide \in {IF i <= 2 THEN {} ELSE SmallSub(Sub(s), 3, <<i, 3>>)}, ml \in {BigLevel(s, <<i, 4>>)}:
      zlast' = [q |-> "graph", s |-> s, st |-> st, fl |-> Nodes \ hide, ml |-> ml,
                def |-> GraphDef(Par, Ch, s, Nodes \ hide, st, ml),
                dot |-> ADot(Par, Ch, s, Nodes \ hide, st, ml),
